@@ -474,6 +474,9 @@ def build_pair(case):
             blat.fill.array = blat.fill.array[:-1]
         else:
             blat.fill.array = blat.fill.array + [blat.fill.array[0]]
+        if getattr(blat.fill, 'render_array', None) is not None:
+            # the array was written with repeats: spell the changed one anew
+            blat.fill.render_array = gen_lat._with_shorthand(blat.fill.array)
         return deck, bad, f'FILL array with {len(blat.fill.array)} entries ' \
             f'instead of {len(lat.fill.array)}'
     if head in ('imp-unequal', 'imp-unequal-same-tokens', 'imp-short'):
